@@ -64,6 +64,7 @@ inductive MakeKind
   | slice     -- `x = make([]T, n)`                       (panics for n < 0)
   | guarded   -- `if n >= 0 { x = make([]T, n) }` / `if n > 0 {…}`
   | map       -- `x = make(map[K]V, n)`                   (a negative hint is ignored by the runtime)
+  | reject    -- `if n < 0 { return errInvalidArrayLength }; x = make([]T, n)`
   deriving DecidableEq, Repr
 
 inductive Fmt
@@ -100,15 +101,17 @@ def makeAlloc (k : MakeKind) (elem : Nat) (n : Int) : Option Nat :=
   | .slice => mk elem n
   | .guarded => if n < 0 then some 0 else mk elem n
   | .map => if n < 0 then some 0 else some (n.toNat * elem)
+  | .reject => mk elem n     -- only reached with n ≥ 0 (see `run`)
 
 def run (v : Variant) (crcf : Bool → Bytes → Nat) : Fmt → Bytes → Nat → Res Unit
   | .prim p, raw, off => runPrim v p raw off
   | .seq a b, raw, off => (run v crcf a raw off).bind fun _ off1 => run v crcf b raw off1
   | .arr c k elem body, raw, off =>
       (getCount v c raw off).bind fun n off1 =>
-        match makeAlloc k elem n with
-        | none => .panic 0
-        | some a => (iter (run v crcf body raw) n.toNat off1).addAlloc a
+        if k = .reject ∧ n < 0 then .err .invalidArrayLength off1 0
+        else match makeAlloc k elem n with
+          | none => .panic 0
+          | some a => (iter (run v crcf body raw) n.toNat off1).addAlloc a
   | .lenField body, raw, off =>
       (pushLength raw off).bind fun fr off1 =>
         (run v crcf body raw off1).bind fun _ off2 => pop v crcf raw fr off2
@@ -209,10 +212,10 @@ def metadataV0Fmt : Fmt :=
        (.arr .arrayLength .slice 8 (seqs [.prim .int16, .prim .string,
           .arr .arrayLength .slice 8 (seqs [.prim .int16, .prim .int32, .prim .int32, .prim .int32Array, .prim .int32Array])]))
 
-/-- the same with guarded loop heads (`if n < 0 { return errInvalidArrayLength }`-style repair) -/
+/-- the same with the repaired loop heads (`if n < 0 { return errInvalidArrayLength }` before the make) -/
 def metadataV0FmtGuarded : Fmt :=
-  .seq (.arr .arrayLength .guarded 8 (seqs [.prim .int32, .prim .string, .prim .int32]))
-       (.arr .arrayLength .guarded 8 (seqs [.prim .int16, .prim .string,
-          .arr .arrayLength .guarded 8 (seqs [.prim .int16, .prim .int32, .prim .int32, .prim .int32Array, .prim .int32Array])]))
+  .seq (.arr .arrayLength .reject 8 (seqs [.prim .int32, .prim .string, .prim .int32]))
+       (.arr .arrayLength .reject 8 (seqs [.prim .int16, .prim .string,
+          .arr .arrayLength .reject 8 (seqs [.prim .int16, .prim .int32, .prim .int32, .prim .int32Array, .prim .int32Array])]))
 
 end Model.Decoder
